@@ -18,7 +18,7 @@ import (
 // already have been touched by the first transaction's fee or credit). Value is never created,
 // nobody goes negative, and a FAILED transfer moves nothing except the sender's fee. Afterwards the
 // block is committed and a restarted node (cold cache, same store) reads the same balances (C01, C10).
-// zz:also C01 C10
+// zz:also C01 C10 C07
 func ZZH_C14_block() {
 	price := zz.BigInt("gasPrice")
 	zz.Assume(zz.BigLe(big.NewInt(0), price))
@@ -30,7 +30,9 @@ func ZZH_C14_block() {
 		panic(err)
 	}
 	exec := zzNewExecOn(lg, 1, price)
-	addrs := []string{zzUsers[0], zzUsers[1], zzAdmins[0]}
+	// (the fourth account has never been seen by the ledger: no record, no cached object)
+	fresh := "0xF0000000000000000000000000000000000000F4"
+	addrs := []string{zzUsers[0], zzUsers[1], zzAdmins[0], fresh}
 	sum := func() *big.Int {
 		s := new(big.Int)
 		for _, a := range addrs {
@@ -38,25 +40,35 @@ func ZZH_C14_block() {
 		}
 		return s
 	}
-	for _, a := range addrs {
+	for _, a := range addrs[:3] {
 		zzSetBalance(exec, a, "bal")
 	}
 	acc, root := exec.ledger.FlushDirtyData()
 	_ = exec.ledger.StateLedger.Commit(1, acc, root)
 	exec.ledger.PrepareBlock(zzHash(2), 2)
 	exec.txsExecutor.ApplyTransactions(nil, nil)
+	// an earlier transaction of the block may only have READ the unknown account (a call to it that fails)
+	// (decided when the account is first used as a receiver: the read then precedes that transfer)
+	freshDecided := false
 	total := sum()
 	nonces := []uint64{0, 0}
 	for i := 0; i < zz.Tier(2, 3); i++ {
 		fi := zz.Choice("from", 2)
-		ti := zz.Choice("to", 3)
+		ti := zz.Choice("to", 4)
 		if fi == ti {
 			continue
+		}
+		if ti == 3 && !freshDecided {
+			freshDecided = true
+			if zz.Choice("unknownAccountReadEarlier", 2) == 1 {
+				_ = exec.ledger.GetBalance(zzAddr(fresh))
+				_ = exec.ledger.GetCode(zzAddr(fresh))
+			}
 		}
 		amt := zz.BigInt("amount")
 		zz.Assume(zz.BigLe(big.NewInt(0), amt))
 		zz.Assume(zz.BigLe(amt, big.NewInt(1000000)))
-		var pre [3]*big.Int
+		var pre [4]*big.Int
 		for j, a := range addrs {
 			pre[j] = zzBalance(exec, a)
 		}
